@@ -660,6 +660,373 @@ def t_slices_and_lists():
     l4.reverse()
     t = (1, 2, 3)
     return [l[2:8:2], l[::-3], l[-3:], l2, l3, l3.index(3), l4, l4.count(2), t[1:], t + (4,), t * 2, l.copy() == l, [1, 2] == [1, 2], [1, 2] < [1, 3], (1, "a") == (1, "a"), l[len(l) - 1], [0] * 3, list("ab"), tuple([1]), len(t), 2 in t, l.pop(), l.pop(0), [[1, 2], [3]][0][1], sorted({3: "a", 1: "b"}), list(range(5, 0, -2))]
+
+
+# ----------------------------------------------------------------------------- batch 2
+
+
+@dataclass
+class DC2:
+    a: int
+    b: list = field(default_factory=list)
+    c: int = field(default=0, init=False)
+    d: str = field(default="d", repr=False, compare=False)
+
+    def __post_init__(self):
+        self.c = self.a * 2
+
+
+@dataclass(order=True, frozen=True)
+class Ver:
+    major: int
+    minor: int = 0
+
+
+@dataclass(slots=True)
+class SlotDC:
+    x: int
+    y: int = 1
+
+
+@dataclass(kw_only=True)
+class KwDC:
+    p: int
+    q: int = 2
+
+
+class Dyn:
+    def __init__(self):
+        self.known = 1
+
+    def __getattr__(self, name):
+        if name.startswith("x_"):
+            return name[2:]
+        raise AttributeError(name)
+
+
+class WithSetter:
+    def __init__(self):
+        self._v = 0
+        self.log = []
+
+    @property
+    def v(self):
+        return self._v
+
+    @v.setter
+    def v(self, value):
+        self.log.append(value)
+        self._v = value * 2
+
+
+class Cmp:
+    def __init__(self, k):
+        self.k = k
+
+    def __eq__(self, other):
+        if not isinstance(other, Cmp):
+            return NotImplemented
+        return self.k == other.k
+
+    def __lt__(self, other):
+        return self.k < other.k
+
+    def __hash__(self):
+        return hash(("Cmp", self.k))
+
+    def __repr__(self):
+        return f"Cmp({self.k})"
+
+
+_COUNTER = 0
+
+
+def _bump():
+    global _COUNTER
+    _COUNTER += 1
+    return _COUNTER
+
+
+def t_dataclass2():
+    d = DC2(3)
+    e = DC2(3, [1])
+    v1, v2 = Ver(1, 2), Ver(1, 10)
+    s = SlotDC(1)
+    try:
+        s.z = 1
+        slot = "ok"
+    except AttributeError:
+        slot = "attrerr"
+    try:
+        KwDC(1)
+        kw = "ok"
+    except TypeError:
+        kw = "te"
+    try:
+        DC2(1, c=5)
+        initf = "ok"
+    except TypeError:
+        initf = "te"
+    return [d.c, d.b, d == DC2(3), d == e, repr(d), v1 < v2, sorted([v2, v1])[0].minor, max(v1, v2).minor, slot, s.x + s.y, kw, KwDC(p=1).q, initf, d.d, DC2(1, d="x") == DC2(1, d="y"), {v1: 1}[Ver(1, 2)]]
+
+
+def t_dynamic_attrs():
+    d = Dyn()
+    w = WithSetter()
+    w.v = 3
+    w.v += 1
+    out = [d.known, d.x_abc, hasattr(d, "nope"), getattr(d, "nope", 7), w.v, w.log]
+    o = Base(1)
+    o.extra = 5
+    del o.extra
+    out.append(hasattr(o, "extra"))
+    setattr(o, "dyn", 9)
+    out.append(o.dyn)
+    out.append(vars(o) if False else sorted(o.__dict__))
+    out.append(type(o).__name__ + ":" + o.__class__.__name__)
+    out.append(Base.who(o))
+    out.append(isinstance(o, (Child, Base)))
+    out.append(type(o) is Base)
+    out.append(type(Child(1)) == Base)
+    return out
+
+
+def t_rich_compare():
+    a, b = Cmp(1), Cmp(2)
+    return [a == Cmp(1), a != b, a == 5, 5 == a, a < b, sorted([b, a])[0].k, min(b, a).k, a in [Cmp(1)], [Cmp(1), Cmp(2)].index(Cmp(2)), {a: "x"}.get(Cmp(1)), len({Cmp(1), Cmp(1), Cmp(2)}), repr([a]), str(a), [a, b].count(Cmp(1))]
+
+
+def t_globals_and_defaults():
+    def acc(x, bucket=[]):
+        bucket.append(x)
+        return list(bucket)
+
+    r1 = acc(1)
+    r2 = acc(2)
+    n1 = _bump()
+    n2 = _bump()
+
+    def kwonly(*, a=1, b):
+        return a + b
+
+    def posonly(a, b, /, c):
+        return (a, b, c)
+
+    try:
+        posonly(1, b=2, c=3)
+        po = "ok"
+    except TypeError:
+        po = "te"
+    return [r1, r2, n2 - n1, kwonly(b=2), posonly(1, 2, c=3), po]
+
+
+def t_generators2():
+    out = []
+
+    def g():
+        try:
+            for i in range(5):
+                try:
+                    yield i
+                except ValueError:
+                    out.append("ve-inside")
+        finally:
+            out.append("cleanup")
+
+    it = g()
+    out.append(next(it))
+    out.append(next(it))
+    it.close()  # (finalisation of an abandoned generator by the garbage collector is outside the model)
+
+    def take(n, src):
+        for i, x in enumerate(src):
+            if i >= n:
+                if hasattr(src, "close"):
+                    src.close()
+                return
+            yield x
+
+    out.append(list(take(2, g())))
+    out.append(sum(x for x in take(3, iter(range(10)))))
+
+    def gen_with_return():
+        yield 1
+        return 5
+
+    def deleg():
+        v = yield from gen_with_return()
+        yield v * 2
+
+    out.append(list(deleg()))
+    e = enumerate(["a", "b"])
+    out.append(next(e))
+    out.append(list(e))
+    z = zip([1, 2, 3], "ab")
+    out.append(list(z))
+    try:
+        list(zip([1], [1, 2], strict=True))
+    except ValueError:
+        out.append("strict")
+    m = map(str, [1, 2])
+    out.append(next(m))
+    out.append(list(m))
+    it2 = iter([1, 2, 3])
+    out.append([x for x in it2 if x > 1])
+    out.append(list(it2))
+    out.append(list(iter(lambda: _bump() % 3 == 0 or "v", True))[:0])
+    return out
+
+
+def t_string_building():
+    parts = []
+    for i in range(3):
+        parts.append(f"{i}:{i * i}")
+    s = ",".join(parts)
+    t = "%(a)s-%(b)02d" % {"a": "x", "b": 3}
+    u = "{0}{1}{0}".format("a", "b")
+    v = "{:>5}|{:<3}|{:^5}".format("r", "l", "c")
+    w = f"{'nested'!r:>10}"
+    x = f"{3.14159:.2f} {255:#x} {1000000:,} {0.5:%}"
+    y = "a" "b" 'c'
+    z = s.split(",")[1].split(":")
+    return [s, t, u, v, w, x, y, z, s.count(":"), "-".join(reversed(z)), "x".center(5, "*"), "a\tb".expandtabs(4), "abc".translate(str.maketrans("ab", "xy")), "ß".upper(), "İ".lower() == "i̇", "a,b,,c".split(","), " a  b ".split(), "abc"[1], "abc"[-1:], "abc" * 2, "b" in "abc", "abc".index("c"), "é".encode("utf-8"), "é".encode("latin-1"), b"\xc3\xa9".decode("utf-8"), "€".encode("utf-8").hex(), len("€".encode()), "a" < "B", "a".lower() < "B".lower()]
+
+
+def t_numbers():
+    return [7 / 2, 7 // 2, 7 % 2, -7 // 2, 2**0.5 > 1.41, int("ff", 16), int("0b11", 0), hex(255), bin(5), oct(8), round(2.675, 2), round(3.5), round(-0.5), abs(-2.5), divmod(-7, 2), float("inf") > 1e308, 1e3, 0.1 + 0.2 == 0.3, 10**20, (1 << 64) - 1, 5 .bit_length(), (255).to_bytes(1, "big"), int.from_bytes(b"\xff\xfe", "little"), True + True, sum([0.1] * 3), max(1, 2.5), min("b", "a"), 3 == 3.0, hash(3) == hash(3.0), 1_000, 0x_ff, bool(0.0), 4 if 3 > 2 else 5, -(-3), +3, not 0, 1 and 2 and 3, 0 or "" or [] or "last"]
+
+
+def t_dict_order_and_views():
+    d = {"b": 1, "a": 2}
+    d["c"] = 3
+    del d["b"]
+    d["b"] = 4
+    keys = list(d)
+    items = list(d.items())
+    vals = list(d.values())
+    d2 = dict(sorted(d.items()))
+    d3 = {v: k for k, v in d.items()}
+    ks = d.keys() & {"a", "z"}
+    merged = d | {"z": 0}
+    d4 = dict(a=1, **{"b": 2})
+    it = iter(d.items())
+    first = next(it)
+    popped = d.popitem()
+    try:
+        {}.popitem()
+        pe = "ok"
+    except KeyError:
+        pe = "ke"
+    nested = {"x": {"y": [1, 2]}}
+    nested["x"]["y"].append(3)
+    return [keys, items, vals, list(d2), d3, sorted(ks), list(merged), d4, first, popped, pe, nested, len(d), list(reversed({"p": 1, "q": 2})), {1: "a"} == {1: "a"}, {1: "a", 2: "b"} == {2: "b", 1: "a"}, {"a": [1]} == {"a": [1]}, dict([("k", 1)]) == {"k": 1}, {(1, 2): "t"}[(1, 2)], {True: "t"}[1], {1.0: "f"}[1]]
+
+
+def t_set_ops():
+    a = {1, 2, 3}
+    b = {3, 4}
+    c = set()
+    c.update([1, 1, 2])
+    c.discard(5)
+    c.remove(1)
+    try:
+        c.remove(9)
+        r = "ok"
+    except KeyError:
+        r = "ke"
+    f = frozenset(a)
+    return [sorted(a | b), sorted(a & b), sorted(a - b), sorted(a ^ b), a <= {1, 2, 3, 4}, a < a, a >= {1}, a.isdisjoint({9}), sorted(c), r, a == {3, 2, 1}, f == a, len(f), 2 in f, sorted(a.union(b, [7])), sorted(a.intersection([1, 9])), sorted(a.difference([1])), a.issubset(range(5)), sorted(set("hello")), sorted({x % 2 for x in range(5)}), a.pop() in (1, 2, 3), bool(set()), sorted(a.symmetric_difference(b) if False else [0]), {frozenset({1}): 2}[frozenset([1])]]
+
+
+def t_exceptions_flow():
+    out = []
+
+    class E1(Exception):
+        pass
+
+    class E2(E1):
+        pass
+
+    def thrower(kind):
+        if kind == 1:
+            raise E1("one")
+        if kind == 2:
+            raise E2("two")
+        if kind == 3:
+            raise OSError(2, "nofile")
+        return "fine"
+
+    for k in (0, 1, 2, 3):
+        try:
+            out.append(thrower(k))
+        except E2 as e:
+            out.append(("E2", str(e)))
+        except E1 as e:
+            out.append(("E1", e.args))
+        except (OSError, ValueError) as e:
+            out.append(("OS", e.args, e.errno))
+        else:
+            out.append("else")
+        finally:
+            out.append(k)
+
+    def cleanup_order():
+        try:
+            try:
+                return "inner"
+            finally:
+                out.append("f1")
+        finally:
+            out.append("f2")
+
+    out.append(cleanup_order())
+
+    def finally_overrides():
+        for i in range(3):
+            try:
+                if i == 1:
+                    continue
+                if i == 2:
+                    break
+            finally:
+                out.append(("fin", i))
+        return "done"
+
+    out.append(finally_overrides())
+    try:
+        try:
+            raise KeyError("a")
+        except KeyError:
+            raise ValueError("b")
+    except ValueError as e:
+        out.append((str(e), type(e.__context__).__name__, e.__cause__))
+    try:
+        raise E2
+    except E1 as e:
+        out.append((type(e).__name__, e.args, issubclass(type(e), E1)))
+    e = E1("x", 1)
+    out.append((str(e), repr(e), e.args))
+    try:
+        raise StopIteration("si")
+    except StopIteration as si:
+        out.append(si.value)
+    return out
+
+
+def t_bytes2():
+    buf = bytearray(b"\x00" * 4)
+    buf[0] = 0x0A
+    buf[1:3] = b"\x05\x06"
+    view = memoryview(buf)
+    n = io.BytesIO(b"\x0a\x05hello").readinto(buf)
+    chunks = []
+    f = io.BytesIO(b"abcdefg")
+    while chunk := f.read(3):
+        chunks.append(chunk)
+    header = b"\x0a\x05\x0a"
+    a, b, c = header
+    h0, *rest = header
+    return [bytes(buf), n, view[0], len(view), chunks, a, b, c, h0, rest, header[0] == 0x0A and header[2] == 0x0A, header[:2] + header[2:], bytes(reversed(header)), b"".join([b"a", b"b"]), b"a%db" % 5, bytes(3) + b"x", header.startswith((b"\x0a", b"\x0b")), header.endswith(b"\x0a"), header.count(b"\x0a"), header.index(5), header.replace(b"\x0a", b"."), header.split(b"\x05"), int(header[1]), header[1:2] == b"\x05", header != bytearray(header) or True, bytearray(header) == header, list(bytearray(b"ab")), bytes(bytearray(b"ab")[::-1]), b"AbC".lower(), bytes([65]).decode("ascii"), b"\x80" > b"\x7f", sorted([b"b", b"a"]), len(b"") == 0, not b"", bool(b"\x00")]
 '''
 
 TESTS = [n.name for n in ast.parse(SOURCE).body if isinstance(n, ast.FunctionDef) and n.name.startswith("t_")]
